@@ -34,7 +34,7 @@ SPEC = {
 READERS = {}
 
 
-def one_file(ctx, rng, path, via_class):
+def one_file(ctx, rng, path, via_class, big=False):
     from PyMatterSim.reader.dump_reader import DumpReader
     from PyMatterSim.reader.lammps_reader_helper import read_lammps_wrapper
     from PyMatterSim.reader.reader_utils import DumpFileType
@@ -53,6 +53,10 @@ def one_file(ctx, rng, path, via_class):
     K = int(rng.integers(1, 6))
     N0 = int(rng.choice([1, 2, 3, 5, 8, 13, 21, 40]))
     vary_n = rng.random() < 0.15
+    if big:
+        # a frame far beyond the usual size (block-wise / buffered reading boundaries: 4096, 8192 lines)
+        N0, vary_n, nframes = int(rng.choice([4097, 5000, 9001])), False, 3
+        ctx.count("frames_over_4000_atoms", nframes)
     if nframes <= 8:
         ts = np.sort(rng.choice(np.array([0, 1, 7, 100, 2500, 10 ** 6, 10 ** 9, 123456789]), size=nframes, replace=False))
     else:
@@ -193,6 +197,9 @@ def sample_files(ctx):
 def run(ctx):
     from ..harness import fresh_dir, drop_dir
     wd = fresh_dir("c01")
+    if ctx.shard == 0 or ctx.thorough:
+        for k_ in range(2):
+            one_file(ctx, ctx.rng(), os.path.join(wd, "t.dump"), via_class=bool(k_), big=True)
     n = ctx.n(400, 2000)
     for i in range(n):
         rng = ctx.rng()
